@@ -1,9 +1,11 @@
 -- Reference verifier, continued:
 -- (a) the hypothesis of `refVerify_ok_implies` is satisfied by real prover output (the kernel-checked acceptance of
 --     WinterProofs/RefVerifierWitness.lean);
--- (b) `refVerify_never_panics` (= `RefVerifyTotal`): for EVERY byte string the reference verifier returns a verdict,
---     and a `panic` verdict is one of the two panics the REAL code has on a trace shape the computation does not fit
---     (`Air::new`, the AIR's callbacks inside `evaluate_constraints`; recorded finding c06.verify.air-new).  On top
+-- (b) `refVerify_never_panics` (= `RefVerifyTotal`): for EVERY instantiation satisfying `InstOk` (the three
+--     instances do), EVERY description of the family and EVERY byte string the reference verifier returns a verdict,
+--     and a `panic` verdict is one of the panics the REAL code has: on a trace shape the computation does not fit
+--     (`Air::new`, the AIR's callbacks inside `evaluate_constraints`; recorded finding c06.verify.air-new), or the
+--     `expect` on `get_aux_rand_elements` (the coin not producing a field element within its 1000 tries).  On top
 --     of the byte-level part (WinterProofs/RefVerifier.lean, C06) this needs: after the front end has passed, the
 --     decision function `VerifierChecks.verify` reaches none of its index sites — `core_no_panic`:
 --       * the parsed channel has one root per trace segment, one FRI root per scheduled layer plus the remainder's,
@@ -16,6 +18,7 @@
 --         one opened row per folded position by the Merkle check's leaf count, `get_query_values` inside the rows).
 import WinterProofs.RefVerifier
 import WinterProofs.RefVerifierWitness
+import WinterProofs.RefVerifierWitnessAux
 import WinterProofs.Lemmas.C15Positions
 import WinterProofs.Lemmas.C10Bind
 import WinterProofs.C19
@@ -27,7 +30,13 @@ open Model Model.VerifierChecks Model.RefVerifier
 
 /-- everything `refVerify_ok_implies` lists holds for the honest proof `honestSq8`: the theorem's hypothesis is
     satisfied by real prover output -/
-example := refVerify_ok_implies descSq8 honestSq8Pubs (.optionSet [⟨1, 4, 0, 1, 2, 1⟩]) honestSq8 refVerify_accepts_honest
+example := refVerify_ok_implies Inst.rp64 descSq8 honestSq8Pubs (.optionSet [⟨1, 4, 0, 1, 2, 1⟩]) honestSq8 refVerify_accepts_honest
+
+/-- ... and for the honest proof `honestAux8` of a computation with an auxiliary segment: the auxiliary random
+    element it was checked with is the draw that follows the main commitment, both trace openings verify, the OOD
+    consistency equation holds with the auxiliary transition constraint and boundary assertion -/
+example := refVerify_ok_implies Inst.rp64 descAux8 honestAux8Pubs (.optionSet [⟨1, 2, 0, 1, 4, 1⟩]) honestAux8
+  refVerify_accepts_honest_aux
 
 /-! ## what a successful channel parse says about the FRI part -/
 
@@ -412,38 +421,39 @@ theorem friNew_no_panic (K : CoinOps C D V) (N total : Nat) :
           subst h
           exact ih _ _ _ _ he
 
-theorem auxPhase_no_panic (K : CoinOps C D V) (A : AirInst C D V) (cm : Committed V D) (c1 : C) (r0 : D)
-    (rest : List D) (hl : A.lagrange = false) (hn : A.numAuxRands = 0)
-    (h2 : A.multiSegment = true → rest ≠ []) (s : String) :
-    auxPhase K A cm c1 r0 rest ≠ .error (.panic s) := by
-  intro h
+/-- the only panic of the auxiliary-segment phase of an AIR without Lagrange kernel column, given a commitment per
+    segment: the `expect` on the auxiliary random elements -/
+theorem auxPhase_panic_site (K : CoinOps C D V) (A : AirInst C D V) (cm : Committed V D) (c1 : C) (r0 : D)
+    (rest : List D) (hl : A.lagrange = false)
+    (h2 : A.multiSegment = true → rest ≠ []) (s : String)
+    (h : auxPhase K A cm c1 r0 rest = .error (.panic s)) : s = "get_aux_rand_elements" := by
   unfold auxPhase at h
   split at h
   · cases h
   · rename_i hm
     have hm' : A.multiSegment = true := by simpa using hm
     split at h
-    · exact h2 hm' rfl
+    · exact absurd rfl (h2 hm')
     · rw [hl] at h
       simp only [Bool.false_eq_true, if_false] at h
-      rw [hn, drawMany_zero] at h
-      cases h
+      split at h
+      · injection h with h; injection h with h; exact h.symm
+      · cases h
 
-theorem challenges_no_panic (W : Verifier C D V) (ctx : Serde.Context) (cm : Committed V D)
-    (hl : (W.air ctx).lagrange = false) (hn : (W.air ctx).numAuxRands = 0)
-    (h1 : cm.traceRoots ≠ []) (h2 : (W.air ctx).multiSegment = true → 2 ≤ cm.traceRoots.length) (s : String) :
-    challenges W ctx cm ≠ .error (.panic s) := by
-  intro h
+theorem challenges_panic_site (W : Verifier C D V) (ctx : Serde.Context) (cm : Committed V D)
+    (hl : (W.air ctx).lagrange = false)
+    (h1 : cm.traceRoots ≠ []) (h2 : (W.air ctx).multiSegment = true → 2 ≤ cm.traceRoots.length) (s : String)
+    (h : challenges W ctx cm = .error (.panic s)) : s = "get_aux_rand_elements" := by
   unfold challenges at h
   simp only at h
   split at h
-  · rename_i hnil; exact h1 hnil
+  · rename_i hnil; exact absurd hnil h1
   · rename_i r0 rest hroots
     split at h
     · rename_i e he
       injection h with h
       subst h
-      refine auxPhase_no_panic _ _ _ _ _ _ hl hn ?_ s he
+      refine auxPhase_panic_site _ _ _ _ _ _ hl ?_ s he
       intro hm
       have := h2 hm
       rw [hroots] at this
@@ -460,7 +470,7 @@ theorem challenges_no_panic (W : Verifier C D V) (ctx : Serde.Context) (cm : Com
               · rename_i e he
                 injection h with h
                 subst h
-                exact friNew_no_panic _ _ _ _ _ _ _ s he
+                exact absurd he (friNew_no_panic _ _ _ _ _ _ _ s)
               · split at h
                 · cases h
                 · split at h
@@ -523,30 +533,31 @@ end decision
 section total
 open Model.Parse WinterProofs.C06 WinterProofs.C06L
 
-theorem rawOpening_rows_length (o : ParsedOpening) (n : Nat) (h : ∀ row ∈ o.rows, row.length = n) :
-    ∀ row ∈ (rawOpening o).rows, row.length = n := by
+theorem rawOpening_rows_length (J : Inst) (o : ParsedOpening) (n : Nat) (h : ∀ row ∈ o.rows, row.length = n) :
+    ∀ row ∈ (rawOpening J o).rows, row.length = n := by
   intro row hrow
   simp only [rawOpening, List.mem_map] at hrow
   obtain ⟨r, hr, rfl⟩ := hrow
   simpa using h r hr
 
 /-- `draw_integers` of the concrete coin returns positions inside the domain -/
-theorem drawInts_lt (E : EOps) (c : Coin.Coin Dg) (n dom nonce : Nat) (ps : List Nat)
-    (h : (coinOps E).drawInts c n dom nonce = some ps) : ∀ v ∈ ps, v < dom := by
+theorem drawInts_lt (J : Inst) (E : EOps) (c : Coin.Coin Dg) (n dom nonce : Nat) (ps : List Nat)
+    (h : (coinOps J E).drawInts c n dom nonce = some ps) : ∀ v ∈ ps, v < dom := by
   simp only [coinOps] at h
   split at h
   · rename_i vs c' hd
     injection h with h
     subst h
-    exact (C19.drawIntegers_ok hashOps n dom nonce c _ c' hd).1
+    exact (C19.drawIntegers_ok (hashOps J) n dom nonce c _ c' hd).1
   · cases h
 
-/-- after the front end has passed, the decision function reaches none of its panic sites -/
-theorem core_no_panic (d : Desc) (pubs : List Nat) (acc : Acceptable) (bs : List Nat) (hb : BytesOk bs)
-    (p : Serde.Proof) (ncols : Nat) (E : EOps) (c : ParsedChannel) (hf : FrontPassed d pubs acc bs p ncols E c)
-    (s : String) :
-    VerifierChecks.verify (mkVerifier E d pubs acc) p.context (some (committedOf c, openedOf c))
-      ≠ .error (.panic s) := by
+/-- after the front end has passed, the decision function reaches none of its index sites: its only panic outcome
+    is the `expect` on the auxiliary random elements -/
+theorem core_no_panic (J : Inst) (d : Desc) (pubs : List Nat) (acc : Acceptable) (bs : List Nat) (hb : BytesOk bs)
+    (p : Serde.Proof) (ncols : Nat) (E : EOps) (c : ParsedChannel) (hf : FrontPassed J d pubs acc bs p ncols E c)
+    (s : String)
+    (hv : VerifierChecks.verify (mkVerifier J E d pubs acc) p.context (some (committedOf J c, openedOf J c))
+      = .error (.panic s)) : s = "get_aux_rand_elements" := by
   have hpok := (parseProof_invariants bs hb p hf.parsed).1
   obtain ⟨hctx, _, _, _, _⟩ := hpok
   obtain ⟨_, _, hpl, hn8⟩ := ti_facts _ hctx.1
@@ -561,14 +572,12 @@ theorem core_no_panic (d : Desc) (pubs : List Nat) (acc : Acceptable) (bs : List
   have hfold := pow2_eq hpf
   have hb1 : 1 ≤ o.folding.log2 := (Nat.le_log2 (by omega)).mpr (by simpa using hf2)
   have hn : ti.length = 2 ^ ti.length.log2 := pow2_eq hpl
-  intro hv
   rcases verify_panic_cases _ _ _ _ s hv with hch | ⟨ch, hch, hloop⟩
   · -- the challenge phase
-    refine challenges_no_panic (mkVerifier E d pubs acc) p.context (committedOf c) ?_ ?_ ?_ ?_ s hch
-    · simp only [mkVerifier, airInst]
+    refine challenges_panic_site (mkVerifier J E d pubs acc) p.context (committedOf J c) ?_ ?_ ?_ s hch
     · simp only [mkVerifier, airInst]
     · intro hnil
-      have : (committedOf c).traceRoots.length = 0 := by rw [hnil]; rfl
+      have : (committedOf J c).traceRoots.length = 0 := by rw [hnil]; rfl
       simp only [committedOf, List.length_map] at this
       rw [htr] at this
       simp only [chanCfg, hti] at this
@@ -585,6 +594,7 @@ theorem core_no_panic (d : Desc) (pubs : List Nat) (acc : Acceptable) (bs : List
       rw [if_pos hm']
       exact Nat.le_refl 2
   · -- the layer loop
+    exfalso
     rw [air_eq, airInst_fri, airInst_degree, airInst_deepCompose] at hloop
     simp only [hti, ho] at hloop
     rw [fob] at hloop
@@ -595,7 +605,7 @@ theorem core_no_panic (d : Desc) (pubs : List Nat) (acc : Acceptable) (bs : List
     rw [hnp2, hlde] at hloop
     -- the number of layers is the scheduled one
     have hL : Fri.numFriLayers (friOpts o) (2 ^ (ti.length * o.blowup).log2)
-        = (chanCfg p.context ncols).numFriLayers := by
+        = (chanCfg J p.context ncols).numFriLayers := by
       unfold Fri.numFriLayers
       rw [numLayersLoop_eq_friLayers, ← hlde]
       simp only [chanCfg, hti, ho]
@@ -603,8 +613,8 @@ theorem core_no_panic (d : Desc) (pubs : List Nat) (acc : Acceptable) (bs : List
     obtain ⟨_, _, _, _, _, _, _, _, _, ps, _, _, _, _, _, _, hfri, _, hps, hpos, _, _⟩ :=
       (WinterProofs.C02L.challenges_ok hch).ex
     have halphas := (WinterProofs.C02L.friNew_log _ _ _ _ hfri).2
-    refine friLayers_no_panic (mkVerifier E d pubs acc) (airInst E d pubs p.context) (committedOf c).friRoots
-      (openedOf c).friLayers ch.alphas (openedOf c).numPartitions o.folding.log2 ?_ hb1 ?_ ?_ _ 0 ch.positions _
+    refine friLayers_no_panic (mkVerifier J E d pubs acc) (airInst J E d pubs p.context) (committedOf J c).friRoots
+      (openedOf J c).friLayers ch.alphas (openedOf J c).numPartitions o.folding.log2 ?_ hb1 ?_ ?_ _ 0 ch.positions _
       (ti.length * o.blowup).log2 _ ?_ ?_ ?_ ?_ ?_ s hloop
     · rw [airInst_fri, ho, fof]; exact hfold
     · show c.numPartitions ≠ 0
@@ -613,7 +623,7 @@ theorem core_no_panic (d : Desc) (pubs : List Nat) (acc : Acceptable) (bs : List
       simp only [openedOf, List.mem_map] at hl
       obtain ⟨o', ho', rfl⟩ := hl
       rw [airInst_fri, ho, fof]
-      refine rawOpening_rows_length o' _ ?_
+      refine rawOpening_rows_length J o' _ ?_
       have := hrows o' ho'
       simpa [chanCfg, ho] using this
     · -- positions inside the domain
@@ -621,12 +631,12 @@ theorem core_no_panic (d : Desc) (pubs : List Nat) (acc : Acceptable) (bs : List
       rw [hpos] at hq
       have hq' := mem_sortDedup q ps hq
       rw [air_eq, airInst_numQueries, airInst_ldeSize, mk_drawInts] at hps
-      have := drawInts_lt E _ _ _ _ ps hps q hq'
+      have := drawInts_lt J E _ _ _ _ ps hps q hq'
       rw [hti, ho] at this
       rw [← hlde]; exact this
     · -- every fold leaves a non-empty domain
       rw [hL]
-      generalize hLL : (chanCfg p.context ncols).numFriLayers = L at hdom ⊢
+      generalize hLL : (chanCfg J p.context ncols).numFriLayers = L at hdom ⊢
       rcases Nat.eq_zero_or_pos L with h0 | hpos'
       · subst h0; simp
       · have := hdom (L - 1) (by omega)
@@ -651,26 +661,54 @@ theorem core_no_panic (d : Desc) (pubs : List Nat) (acc : Acceptable) (bs : List
       omega
 
 /-- **the full statement holds**: for every byte string, the only panic verdicts of the reference verifier are the
-    two panics of the real code on a trace shape the computation does not fit -/
-theorem refVerifyTotal (d : Desc) (hcols : ∀ ti o n, airNew (frontAir d) ti o = some n → n ≤ 255) :
-    RefVerifyTotal d := by
+    panics of the real code: on a trace shape the computation does not fit, and the `expect` on the auxiliary random
+    elements -/
+theorem refVerifyTotal (J : Inst) (hJ : InstOk J) (d : Desc)
+    (hcols : ∀ ti o n, airNew (frontAir J d) ti o = some n → n ≤ 255) : RefVerifyTotal J d := by
   intro pubs acc bs s hb h
-  rcases refVerify_never_panics_partial d pubs acc bs hb hcols s h with h1 | h2 | ⟨p, ncols, E, c, hf, hv⟩
+  rcases refVerify_never_panics_partial J hJ d pubs acc bs hb hcols s h with h1 | h2 | ⟨p, ncols, E, c, hf, hv⟩
   · exact Or.inl h1
-  · exact Or.inr h2
-  · exact absurd hv (core_no_panic d pubs acc bs hb p ncols E c hf s)
+  · exact Or.inr (Or.inl h2)
+  · exact Or.inr (Or.inr (core_no_panic J d pubs acc bs hb p ncols E c hf s hv))
 
 /-- **(1) the reference verifier never panics on untrusted bytes** except where the real code does: for every
-    description whose AIR constructor asks for at most 255 composition columns, every public input vector,
-    acceptance policy and byte string, a `panic` verdict is `AIR::new` or `evaluate_constraints` -/
-theorem refVerify_never_panics (d : Desc) (hcols : ∀ ti o n, airNew (frontAir d) ti o = some n → n ≤ 255)
+    instantiation with the sizes `InstOk` (`instOk_rp64`, `instOk_rpjive`, `instOk_rp62`), every description of the
+    family (with or without auxiliary segment) whose AIR constructor asks for at most 255 composition columns,
+    every public input vector, acceptance policy and byte string, a `panic` verdict is `AIR::new`,
+    `evaluate_constraints` or `get_aux_rand_elements` -/
+theorem refVerify_never_panics (J : Inst) (hJ : InstOk J) (d : Desc)
+    (hcols : ∀ ti o n, airNew (frontAir J d) ti o = some n → n ≤ 255)
     (pubs : List Nat) (acc : Acceptable) (bs : List Nat) (hb : BytesOk bs) (s : String)
-    (h : refVerify d pubs acc bs = .err (.panic s)) : s = "AIR::new" ∨ s = "evaluate_constraints" :=
-  refVerifyTotal d hcols pubs acc bs s hb h
+    (h : refVerify J d pubs acc bs = .err (.panic s)) : RealPanic s :=
+  refVerifyTotal J hJ d hcols pubs acc bs s hb h
 
--- the hypothesis is satisfiable, and both panic verdicts occur (`refVerify_airnew_witness`; `evaluate_constraints`:
+-- the hypothesis is satisfiable, and both shape panics occur (`refVerify_airnew_witness`; `evaluate_constraints`:
 -- the thorough `refv` runs contain proofs whose mutated trace length keeps the channel consistent)
-example : RefVerifyTotal descSq := refVerifyTotal descSq descSq_cols
+example : RefVerifyTotal Inst.rp64 descSq := refVerifyTotal _ instOk_rp64 descSq (descSq_cols _)
+example : RefVerifyTotal Inst.rpjive descSq := refVerifyTotal _ instOk_rpjive descSq (descSq_cols _)
+example : RefVerifyTotal Inst.rp62 descSq := refVerifyTotal _ instOk_rp62 descSq (descSq_cols _)
+
+/-- whatever the trace info and options of the proof, the constructor of the AIR with the auxiliary running product
+    (`descAux8`) asks for at most 255 columns -/
+theorem descAux8_cols (J : Inst) : ∀ ti o n, airNew (frontAir J descAux8) ti o = some n → n ≤ 255 := by
+  intro ti o n h
+  unfold airNew at h
+  simp only [] at h
+  repeat' (split at h <;> try (cases h; done))
+  all_goals (
+    simp only [Option.some.injEq] at h
+    subst h
+    simp [frontAir, descAux8, Desc.auxDegs, Desc.auxWidth, Protocol.compositionColumns, Protocol.highestDegree,
+      Protocol.Degree.evalDegree]
+    try (
+      have hm : max (ti.length - 1) (2 * (ti.length - 1)) = 2 * (ti.length - 1) := Nat.max_eq_right (by omega)
+      rw [hm]
+      have : (2 * (ti.length - 1) - (ti.length - 1)) / ti.length ≤ 1 :=
+        Nat.div_le_of_le_mul (by omega)
+      omega))
+
+-- the theorem applies to a description with an auxiliary segment
+example : RefVerifyTotal Inst.rp64 descAux8 := refVerifyTotal _ instOk_rp64 descAux8 (descAux8_cols _)
 
 end total
 
@@ -778,7 +816,7 @@ def seqLen8 : List Nat :=
 
 /-- the panic verdict `evaluate_constraints` is real: the reference verifier reports the panic of the real code -/
 theorem refVerify_evaluate_constraints_witness :
-    refVerify descSeq [6331011862963056039, 0, 8] (.optionSet [⟨4, 4, 0, 2, 4, 3⟩]) seqLen8
+    refVerify Inst.rp64 descSeq [6331011862963056039, 0, 8] (.optionSet [⟨4, 4, 0, 2, 4, 3⟩]) seqLen8
       = .err (.panic "evaluate_constraints") := by
   decide +kernel
 
